@@ -370,49 +370,43 @@ def to_cfg(style, role, einsums):
                         for b, probes in einsums]}
 
 
-def single_tree(styles, roles, bound_vectors, probe_menu):
-    """levels: style, role, bounds, probes (a tuple of tensors, each a tuple of forms)."""
+class Family:
+    """One sub-space: (style) x (role) x (bound vector) x (probe choice per level)."""
 
-    def tree(p):
-        if len(p) == 0:
-            return styles
-        if len(p) == 1:
-            return roles
-        if len(p) == 2:
-            return bound_vectors
-        if len(p) == 3:
-            return probe_menu(len(p[2]))
-        return None
-
-    return tree
+    def __init__(self, name, kind, styles, roles, bound_vectors, menu, n_levels=1):
+        self.name, self.kind, self.styles, self.roles = name, kind, styles, roles
+        self.bound_vectors, self.menu, self.n_levels = bound_vectors, menu, n_levels
 
 
-def single_body(cfg_t):
-    style, role, bounds, probes = cfg_t
-    return run_cfg(to_cfg(style, role, [(bounds, probes)]))
+FAMILIES: dict = {}
 
 
-def chain_tree(styles, bound_vectors, n_einsums, form_menu):
-    """levels: style, bounds (shared by all Einsums), then one W-projection per Einsum."""
-
-    def tree(p):
-        if len(p) == 0:
-            return styles
-        if len(p) == 1:
-            return bound_vectors
-        if len(p) - 2 < n_einsums:
-            return form_menu(len(p[1]))
-        return None
-
-    return tree
-
-
-def chain_body(cfg_t):
-    style, bounds = cfg_t[0], cfg_t[1]
-    return run_cfg(to_cfg(style, "probe_in", [(bounds, ((f,),)) for f in cfg_t[2:]]))
+def union_tree(p):
+    """levels: family, style, role, bounds, then n_levels probe choices."""
+    if len(p) == 0:
+        return list(FAMILIES)
+    f = FAMILIES[p[0]]
+    if len(p) == 1:
+        return f.styles
+    if len(p) == 2:
+        return f.roles
+    if len(p) == 3:
+        return f.bound_vectors
+    if len(p) - 4 < f.n_levels:
+        return f.menu(len(p[3]))
+    return None
 
 
-def run_cfg(cfg):
+def union_body(cfg_t):
+    f = FAMILIES[cfg_t[0]]
+    style, role, bounds = cfg_t[1:4]
+    if f.kind == "single":  # the probe choice is a tuple of tensors, each a tuple of forms
+        return run_cfg(to_cfg(style, role, [(bounds, cfg_t[4])]), f.name)
+    # chain: one W-projection per Einsum, identity intermediates, same bounds everywhere
+    return run_cfg(to_cfg(style, role, [(bounds, ((g,),)) for g in cfg_t[4:]]), f.name)
+
+
+def run_cfg(cfg, fam_name=""):
     exp, obs, v, classes, n_calls = check(cfg)
     nt = nontrivial(cfg)
     if v is not None:
@@ -420,7 +414,80 @@ def run_cfg(cfg):
         v["config"] = cfg
         v["workload"] = build_workload_dict(cfg)
     return Result(outcome=obs, nontrivial=nt, validated=True, violation=v, sample=cfg,
-                  evaluations=n_calls, outcome_class="+".join(sorted(classes)) or "plain")
+                  evaluations=n_calls, outcome_class=fam_name + ":" + ("+".join(sorted(classes)) or "plain"))
+
+
+def bvecs(ns, alpha):
+    return [bv for n in ns for bv in itertools.product(alpha, repeat=n)]
+
+
+def one_probe(n):  # one probe tensor with 1 or 2 ranks, every form
+    fs = forms(n)
+    return [((f,),) for f in fs] + [((f, g),) for f in fs for g in fs]
+
+
+def one_probe_1rank(n):
+    return [((f,),) for f in forms(n)]
+
+
+def one_probe_2rank_c0(n):
+    fs0 = forms(n, consts=(0,))
+    return [((f, g),) for f in fs0 for g in fs0]
+
+
+def two_probes(n):  # three tensors: identity + two probes of one rank each
+    fs = forms(n)
+    return [((f,), (g,)) for f in fs for g in fs]
+
+
+def define_families(q):
+    FAMILIES.clear()
+    B = (1, 2, 3) if q else (1, 2, 3, 4, 5, 6)
+    IN, BOTH = ["probe_in"], ["probe_in", "probe_out"]
+
+    def add(*a, **k):
+        f = Family(*a, **k)
+        FAMILIES[f.name] = f
+
+    # A: 1-2 rank variables, one probe tensor of 1-2 ranks
+    if q:
+        add("one-probe-1rank", "single", STYLES, IN, bvecs((1, 2), B), one_probe_1rank)
+        add("one-probe-2rank", "single", ["einsum_iss", "workload_rank_sizes"], IN, bvecs((1, 2), B),
+            lambda n: [((f, g),) for f in forms(n) for g in forms(n)])
+        add("one-probe-out-1rank", "single", ["einsum_iss"], ["probe_out"], bvecs((1, 2), B), one_probe_1rank)
+        add("one-probe-out-2rank", "single", ["einsum_iss"], ["probe_out"], bvecs((1, 2), (2, 3)),
+            lambda n: [((f, g),) for f in forms(n) for g in forms(n)])
+    else:
+        add("one-probe", "single", STYLES, BOTH, bvecs((1, 2), B), one_probe)
+    # B: three rank variables
+    if q:
+        add("three-vars-1rank", "single", ["einsum_iss"], IN, bvecs((3,), (1, 2, 3)), one_probe_1rank)
+        add("three-vars-2rank", "single", ["einsum_iss"], IN, bvecs((3,), (2, 3)), one_probe_2rank_c0)
+    else:
+        add("three-vars", "single", ["einsum_iss", "workload_rank_sizes"], IN, bvecs((3,), (1, 2, 3)), one_probe)
+        add("three-vars-b4", "single", ["einsum_iss"], IN,
+            [bv for bv in bvecs((3,), (1, 2, 4, 6)) if max(bv) > 3],
+            lambda n: one_probe_1rank(n) + one_probe_2rank_c0(n))
+    # C: three tensors
+    if q:
+        add("two-probes", "single", ["einsum_iss"], IN, bvecs((2,), (1, 2, 3)), two_probes)
+        add("two-probes-out", "single", ["einsum_iss"], ["probe_out"], bvecs((2,), (2, 3)), two_probes)
+    else:
+        add("two-probes", "single", STYLES, BOTH, bvecs((2,), (1, 2, 3)), two_probes)
+    # D: chains of Einsums sharing a read-only tensor and passing identity intermediates
+    if q:
+        add("chain-2", "chain", ["einsum_iss"], IN, bvecs((1, 2), (1, 2, 3)), lambda n: forms(n), n_levels=2)
+        add("chain-2-rs", "chain", ["workload_rank_sizes"], IN, bvecs((2,), (2, 3)), lambda n: forms(n), n_levels=2)
+    else:
+        add("chain-2", "chain", ["einsum_iss", "workload_rank_sizes"], IN, bvecs((1, 2), (1, 2, 3)),
+            lambda n: forms(n), n_levels=2)
+    if q:
+        add("chain-3", "chain", ["einsum_iss"], IN, bvecs((2,), (2, 3)),
+            lambda n: forms(n, consts=(0,), coeff_alpha=(1, 2)), n_levels=3)
+    else:
+        add("chain-3", "chain", ["einsum_iss", "workload_rank_sizes"], IN, bvecs((1, 2), (1, 2, 3)),
+            lambda n: forms(n, consts=(0,)), n_levels=3)
+    return B
 
 
 def run(ctx):
@@ -428,73 +495,25 @@ def run(ctx):
     # warm-up: import accelforge / islpy / sympy once in the parent
     check(to_cfg("einsum_iss", "probe_in", [((2, 2), ((((1, 1), 0),),))]))
     check(to_cfg("workload_rank_sizes", "probe_in", [((2,), ((((2,), 1),),))]))
+    B = define_families(q)
+    # one explore (one worker pool) over the union of all families
+    ctx.explore("geometry", union_tree, union_body, shard_depth=4, distinct_by_construction=True)
 
-    B = (1, 2, 3) if q else (1, 2, 3, 4, 5, 6)
-
-    def bvecs(ns, alpha):
-        return [bv for n in ns for bv in itertools.product(alpha, repeat=n)]
-
-    def one_probe(n):  # one probe tensor with 1 or 2 ranks, every form
-        fs = forms(n)
-        return [((f,),) for f in fs] + [((f, g),) for f in fs for g in fs]
-
-    # A: 1-2 rank variables, one probe tensor of 1-2 ranks, all four styles, both roles
-    ctx.explore("one-probe", single_tree(STYLES, ["probe_in", "probe_out"], bvecs((1, 2), B), one_probe),
-                single_body, shard_depth=3, distinct_by_construction=True)
-
-    # B: three rank variables
-    def probe3_small(n):
-        fs = forms(n)
-        fs0 = forms(n, consts=(0,))
-        return [((f,),) for f in fs] + [((f, g),) for f in fs0 for g in fs0]
-
-    if q:
-        ctx.explore("three-vars-1rank", single_tree(["einsum_iss"], ["probe_in"], bvecs((3,), (1, 2, 3)),
-                                                    lambda n: [((f,),) for f in forms(n)]),
-                    single_body, shard_depth=3, distinct_by_construction=True)
-        ctx.explore("three-vars-2rank", single_tree(["einsum_iss"], ["probe_in"], bvecs((3,), (2, 3)),
-                                                    lambda n: [((f, g),) for f in forms(n, consts=(0,))
-                                                               for g in forms(n, consts=(0,))]),
-                    single_body, shard_depth=3, distinct_by_construction=True)
-    else:
-        ctx.explore("three-vars", single_tree(["einsum_iss", "workload_rank_sizes"], ["probe_in"],
-                                              bvecs((3,), (1, 2, 3)), one_probe),
-                    single_body, shard_depth=3, distinct_by_construction=True)
-        ctx.explore("three-vars-b4", single_tree(["einsum_iss"], ["probe_in"],
-                                                 [bv for bv in bvecs((3,), (1, 2, 4, 6)) if max(bv) > 3],
-                                                 probe3_small),
-                    single_body, shard_depth=3, distinct_by_construction=True)
-
-    # C: three tensors (identity + two probes of one rank each)
-    def two_probes(n):
-        fs = forms(n)
-        return [((f,), (g,)) for f in fs for g in fs]
-
-    ctx.explore("two-probes", single_tree(["einsum_iss", "workload_iss"] if q else STYLES,
-                                          ["probe_in", "probe_out"], bvecs((2,), (1, 2, 3)), two_probes),
-                single_body, shard_depth=3, distinct_by_construction=True)
-
-    # D: chains of Einsums sharing a read-only tensor W and passing identity intermediates
-    ctx.explore("chain-2", chain_tree(["einsum_iss", "workload_rank_sizes"], bvecs((1, 2), (1, 2, 3)), 2,
-                                      lambda n: forms(n)),
-                chain_body, shard_depth=3, distinct_by_construction=True)
-    ctx.explore("chain-3", chain_tree(["einsum_iss"] if q else ["einsum_iss", "workload_rank_sizes"],
-                                      bvecs((2,), (2, 3)) if q else bvecs((1, 2), (1, 2, 3)), 3,
-                                      (lambda n: forms(n, consts=(0,), coeff_alpha=(0, 1, 2))) if not q
-                                      else (lambda n: forms(n, consts=(0,), coeff_alpha=(1, 2)))),
-                chain_body, shard_depth=3, distinct_by_construction=True)
-
-    ctx.bound(rank_variables="<=3 per Einsum", einsums="1 (all phases), 2 and 3 (chain phases)",
+    ctx.bound(rank_variables="<=3 per Einsum", einsums="1 (all families), 2 and 3 (chain families)",
               bound_alphabet=list(B), coefficients=[0, 1, 2], constants=[0, 1],
               probe_tensors="1 tensor x 1-2 ranks (all forms) ; 2 tensors x 1 rank (all forms)",
-              styles=STYLES, three_var_bounds="{1,2,3}^3 (1 rank) / {2,3}^3 (2 ranks, c=0)" if q else
-              "{1,2,3}^3 all probes, two styles; {1,2,4,6}^3 with max>3 reduced probes")
+              styles=STYLES,
+              families={k: {"styles": f.styles, "roles": f.roles, "n_bound_vectors": len(f.bound_vectors),
+                            "levels": f.n_levels} for k, f in FAMILIES.items()},
+              three_var_bounds="{1,2,3}^3 (1 rank) / {2,3}^3 (2 ranks, c=0)" if q else
+              "{1,2,3}^3 all probes, two styles; {1,2,4,6}^3 with max>3, 1 rank all forms / 2 ranks c=0")
     tot = ctx.total.outcome_classes
     n_off = sum(v for k, v in tot.items() if "halo=extent+const" in k)
     ctx.note(f"{n_off} configurations in which the implementation reports halo = extra extent + constant term "
              f"(accepted offset reading; only possible when c != 0)")
-    ctx.note("outcome classes: box = size returned for a box image; nonbox-raise = exception for a non-box image; "
-             "nonbox-count = exact count returned for a non-box image")
+    ctx.note("outcome classes: <family>:<observations>; box = size returned for a box image; nonbox-raise = "
+             "exception for a non-box image; nonbox-count = exact count returned for a non-box image; "
+             "shared-images-differ = shared read-only tensor with different images per Einsum (size not compared)")
 
 
 def replay(ctx, rec):
